@@ -69,6 +69,7 @@ struct TsoEntry { void* addr; uint32_t n; unsigned char val[16]; uint64_t born; 
 struct EhGlobals { void* caught; unsigned int uncaught; };
 
 struct Fiber {
+    const void* last_addr;     // address of the fiber's latest schedule point that had one
     int id;
     FState state;
     BlockKind bkind;
@@ -188,12 +189,19 @@ static void on_fatal_signal(int sig) {
 }
 
 static bool g_hang_ok = false;
+static bool (*g_hang_triage)(char*, size_t) = nullptr;
 void set_hang_after_fault_ok(bool on) { g_hang_ok = on; }
+void set_hang_triage(bool (*fn)(char* why, size_t n)) { g_hang_triage = fn; }
+const void* last_point_addr(int fid) { return fid >= 0 && fid < g_nfib ? g_fibers[fid]->last_addr : nullptr; }
 
 void fail(const char* cls, const char* fmt, ...) {
-    if (g_hang_ok && (!strcmp(cls, "deadlock") || !strcmp(cls, "livelock"))) cls = "hang-after-fault";
-    char buf[1800];
+    char buf[1800], why[300]; why[0] = 0;
+    bool hang = !strcmp(cls, "deadlock") || !strcmp(cls, "livelock");
+    // a hang after an injected fault is inconclusive unless the scenario's triage says this hang site is not one
+    // of the tolerated ones
+    if (g_hang_ok && hang && (!g_hang_triage || g_hang_triage(why, sizeof why))) cls = "hang-after-fault";
     va_list ap; va_start(ap, fmt); vsnprintf(buf, sizeof buf, fmt, ap); va_end(ap);
+    if (why[0]) { size_t l = strlen(buf); snprintf(buf + l, sizeof buf - l, " | %s", why); }
     finish(cls, buf);
 }
 
@@ -631,6 +639,7 @@ uint64_t my_spin_points() { return g_cur ? g_cur->spin_points : 0; }
 void set_noblock(bool on) { if (g_cur) g_cur->noblock = on; }
 
 void point_slow(int kind, const void* addr) {
+    if (g_cur && addr) g_cur->last_addr = addr;
     Fiber* cur = g_cur;
     if (!cur) return;
     ++g_step;
